@@ -30,7 +30,7 @@ class C29(Prop):
         "an arrival exactly at the window-close instant may count as burst or as later item (both accepted); the window close is simulated under both readings",
         "items are distinct integers (keys are generated separately) so permutations can be checked exactly",
     ]
-    budgets = {"quick": 1500, "thorough": 10000}
+    budgets = {"quick": 4000, "thorough": 20000}
     wall = {"quick": 70.0, "thorough": 900.0}
 
     def setup(self):
@@ -45,11 +45,17 @@ class C29(Prop):
         deb = st.fixed_dictionaries(
             {
                 "k": st.just("debounce"),
-                "delays": st.lists(_delay, min_size=0, max_size=8),
-                "keys": st.lists(st.integers(0, 5), min_size=8, max_size=8),
+                "delays": st.one_of(
+                    st.lists(st.sampled_from([0, 0, 0, 0.05, 0.05, 0.05, 0.1, 0.1, 0.15, 0.2, 0.25, 0.3, 0.5]), min_size=0, max_size=8),
+                    st.lists(st.sampled_from([0, 0, 0, 0.05, 0.05, 0.1, 0.3]), min_size=3, max_size=10),  # dense: a long initial burst
+                ),
+                "keys": st.one_of(st.lists(st.integers(0, 5), min_size=10, max_size=10), st.lists(st.integers(0, 1), min_size=10, max_size=10)),
                 "debounce": st.sampled_from([0.05, 0.1, 0.1, 0.2, 0.3]),
                 "window": st.sampled_from([0.1, 0.2, 0.3, 0.5, 1.0]),
                 "tail": _delay,
+                # key = (keys[i], i) (all distinct) or keys[i] alone: equal keys for distinct items, as two identical log lines give the
+                # control plane's caller (key = (timestamp, pod, container, text)); items are objects that do not define an order
+                "ties": st.booleans(),
             }
         )
         return st.one_of(merge, deb, deb)
@@ -115,26 +121,41 @@ class C29(Prop):
         delays = case["delays"]
         keys = case["keys"]
         items = list(range(len(delays)))
+        ties = bool(case.get("ties"))
         arrivals = []
         t = 0.0
         for d in delays:
             t += d
             arrivals.append(t)
 
+        class Item:  # like the caller's log events: no __lt__
+            __slots__ = ("i",)
+
+            def __init__(self, i):
+                self.i = i
+
+        def keyf(i):
+            return keys[i] if ties else (keys[i], i)
+
         async def gen():
             for i, d in enumerate(delays):
                 await asyncio.sleep(d)
-                yield i
+                yield Item(i)
             await asyncio.sleep(case["tail"])
 
         out, t_out = [], []
 
         async def main():
-            async for x in iu.debounced_sorted_prefix(gen(), key=lambda i: (keys[i], i), debounce_seconds=case["debounce"], max_window_seconds=case["window"]):
-                out.append(x)
+            async for x in iu.debounced_sorted_prefix(gen(), key=lambda it: keyf(it.i), debounce_seconds=case["debounce"], max_window_seconds=case["window"]):
+                out.append(x.i)
                 t_out.append(VClock.t)
 
-        boot.run_virtual(main)
+        try:
+            boot.run_virtual(main)
+        except Exception as e:  # noqa: BLE001
+            r.v("debounce_stream_raised", error=type(e).__name__, equal_keys=ties and len(set(keys[: len(items)])) < len(items))
+            r.nontrivial = True
+            return
         if sorted(out) != items:
             r.v("debounce_not_a_permutation", got=out, want=items)
             r.nontrivial = True
@@ -153,20 +174,27 @@ class C29(Prop):
         k_min = sum(1 for a in arrivals if a < c_lo - eps)
         k_max = sum(1 for a in arrivals if a <= c_hi + eps)
         boundary = any(abs(a - c) <= eps for a in arrivals for c in (c_lo, c_hi))
-        ok_k = None
-        for k in range(len(items) + 1):
-            if out == sorted(items[:k], key=lambda i: (keys[i], i)) + items[k:]:
-                ok_k = k
-                break
+        def fits(k):
+            # the first k arrivals, in non-decreasing key order (any order among equal keys), then the rest as they arrived
+            head = out[:k]
+            return sorted(head) == items[:k] and all(keyf(a) <= keyf(b) for a, b in zip(head, head[1:])) and out[k:] == items[k:]
+
+        ok_k = next((k for k in range(len(items) + 1) if fits(k)), None)
         if ok_k is None:
             # which shape? a later item overtook the sorted burst, or the burst is unsorted
             r.v("debounce_order", got=out, keys=[keys[i] for i in out], boundary=boundary)
         else:
-            ks = [k for k in range(len(items) + 1) if out == sorted(items[:k], key=lambda i: (keys[i], i)) + items[k:]]
+            ks = [k for k in range(len(items) + 1) if fits(k)]
             if not any(k_min <= k <= k_max for k in ks):
                 r.v("debounce_burst_extent", split=ks, k_min=k_min, k_max=k_max, boundary=boundary)
         if boundary:
             r.classes.append("boundary_arrival")
+        if k_min >= 2:
+            r.classes.append("burst_ge_2")
+        if k_min >= 6:
+            r.classes.append("burst_ge_6")
+        if ties and len(set(keys[:k_min])) < k_min:
+            r.classes.append("equal_keys_in_burst")
         r.nontrivial = boundary
 
 
